@@ -28,8 +28,8 @@ func VxH_C15_hyphen_shared() {
 	ref := hyphDicReference{Patterns: map[string]pattern{
 		"ssz": {Start: 1, Values: []dataOrInt{{V: 1, Data: data}}},  // s1sz/sz=sz (Hungarian style)
 		"zzs": {Start: 1, Values: []dataOrInt{{V: 3, Data: other}}}, // z3zs/zs=zs
-		"a":   {Start: 1, Values: []dataOrInt{{V: 1}}},               // a1
-		"as":  {Start: 1, Values: []dataOrInt{{V: 2}}},               // a2s
+		"a":   {Start: 1, Values: []dataOrInt{{V: 1}}},              // a1
+		"as":  {Start: 1, Values: []dataOrInt{{V: 2}}},              // a2s
 	}, MaxLength: 3}
 	n := 3 + vx.Choose("len", 2+vx.Tier())
 	word := make([]byte, n)
